@@ -3724,6 +3724,7 @@ class x86_mn(x86_mn_base):
         log.debug("name: %s", name)
         log.debug("args: %s", args)
         
+        x86_mn.arg_set_numpy_imm(args)
         self.normalize_args(name, args, prefix)
         instr = x86_mn()
         co = instr.asm_candidates(prefix, name, [a.copy() for a in args])
